@@ -245,6 +245,10 @@ impl<'tcx> BorrowingParamVisitor<'tcx> {
         param_name: &str,
     ) -> ParamBorrowInfo<'tcx> {
         let mut is_borrowed = false;
+        // Optional structs and slices borrow exactly like their payload
+        // (`ty.is_option()` below records the optionality in the edge).
+        let optional = ty.is_option();
+        let ty = ty.unwrap_option();
         if self.used_method_lifetimes.is_empty() {
             if let hir::Type::Slice(..) = *ty {
                 return ParamBorrowInfo::TemporarySlice;
@@ -278,7 +282,7 @@ impl<'tcx> BorrowingParamVisitor<'tcx> {
                                 kind: LifetimeEdgeKind::StructLifetime(
                                     link.def_env(),
                                     def_lt,
-                                    ty.is_option(),
+                                    optional,
                                 ),
                             };
                             method_lifetime_info.incoming_edges.push(edge);
